@@ -27,6 +27,10 @@ def senders_zero(field):
     return p
 
 def check(ctx):
+    drain_rules(ctx)
+    rest(ctx)
+
+def drain_rules(ctx):
     # ---- drain before Disconnected: mpsc / spsc
     for inner, q, pop in ((MP, MP + ".queue", Call(MQ_MPSC + "pop", on=MP + ".queue", transitive=False)),
                           (SP, SP + ".queue", Call(SPQ + "pop", on=SP + ".queue", transitive=False))):
@@ -49,6 +53,7 @@ def check(ctx):
                    f.where((bad or sorted(ds))[0]))
         ctx.guarded(fid, Agg(r"std::sync::\w+::TryRecvError", "Empty", transitive=False), variant_of_call(pop.fn.pattern, "None"), tag + "/empty-only-if-pop-none",
                     "Empty is reported only after pop returned None", pred_label="edge `queue.pop()` is None")
+def rest(ctx):
     # ---- mpmc
     for fn in ("try_recv", "recv"):
         fid = MM + "::" + fn
